@@ -850,8 +850,9 @@ fn parse_sexp_step(loc: Srcloc, current_state: &SExpParseState, this_char: u8) -
                 )),
                 _ => parse_sexp_step(
                     // if we don't see a '(' then process it as if the preceding '#' was part of a bareword
-                    loc.clone(),
-                    &SExpParseState::Bareword(loc, vec![b'#']),
+                    // (which began where the '#' is)
+                    loc,
+                    &SExpParseState::Bareword(l.clone(), vec![b'#']),
                     this_char,
                 ),
             }
